@@ -81,7 +81,7 @@ def run(rep, tier, seed):
     n_models = 3000 if tier == "quick" else 60000
     rep.rule = (
         "%d generated acyclic requirement graphs (1-4 typed inputs, 2-8 decisions of every boxed kind: literal, context with and without result entry, invocation, relation, function definition, "
-        "decision table; 0-3 knowledge models with literal / context / table bodies and BKM->BKM requirements; 0-2 decision services with input / encapsulated / output decisions, used as invocables "
+        "decision table; boxed relation, nested context, decision table and invocation inside context entries; 0-3 knowledge models with literal / context / table bodies and BKM->BKM requirements; 0-2 decision services with input / encapsulated / output decisions, used as invocables "
         "and as functions; forced shapes: diamond, BKM chain, service, decision required directly and through a service, multiple output decisions); every invocable x 8 input contexts (full, partial, "
         "nulls, wrongly typed, empty) + the same contexts padded with entries outside the requirement closure. Distinct = (model, invocable, input); non-trivial = result not null." % n_models
     )
